@@ -30,6 +30,9 @@ Directives inside an item block (one per line; a text argument may be given as
     break-value N VAR                  R3 for loop N: `break V` -> `{ VAR = V; break; }` (+ initial decl)
     debug-assert K => EXPR             R2: K-th debug_assert! -> assert(EXPR)
     drop "TOKENS" [xN]                 remove a token sequence (e.g. a trait bound Verus cannot parse)
+    arm-tail "EXPR"                    R16 for a statement arm: EXPR (e.g. `Ok(())`) becomes the tail of the lifted fn
+    write-macros N                     R17: every `write!(W, FMT, a..)` / `writeln!(W, FMT, a..)` (exactly N of them) becomes
+                                       `W.put<k>(FMT, <newline?>, a..)`: a method call on the writer shim that records the piece
 
 Everything that cannot be applied exactly raises LostAnchor => undecided."""
 
@@ -78,6 +81,8 @@ class ItemSpec:
     breakvalue: dict = field(default_factory=dict)
     debug_asserts: dict = field(default_factory=dict)
     drops: list = field(default_factory=list)
+    write_macros: int = -1
+    arm_tail: str = None
     recommends: list = field(default_factory=list)
 
     @property
@@ -205,6 +210,10 @@ def parse_item_block(header, body_lines, tmpl_path, first_line):
             elif word == "drop":
                 m = re.match(_STR + r"\s*(?:x(\d+))?\s*$", rest, re.S)
                 spec.drops.append((_unq(m.group(1)), int(m.group(2) or 1)))
+            elif word == "arm-tail":
+                spec.arm_tail = _unq(re.match(_STR + r"\s*$", rest, re.S).group(1))
+            elif word == "write-macros":
+                spec.write_macros = int(rest.strip())
             elif word == "for-desugar":
                 m = re.match(r"(\d+)\s*(?:via\s+" + _STR + r")?\s*$", rest, re.S)
                 spec.fordesugar[int(m.group(1))] = _unq(m.group(2)) if m.group(2) else None
@@ -392,6 +401,43 @@ class Splicer:
                         raise LostAnchor(f"{self.item_id}: overlapping rewrites at `{old}`")
                 self.replace[a] = (b, new, self.origin_code(self.toks[a]))
                 self.log(rule, a, f"`{old}` => `{new}`")
+        # write!/writeln! (R17): the macro call becomes a method call on the writer shim with the same format string and arguments
+        if spec.write_macros >= 0:
+            sig = self.live_sig()
+            hits = [(p, False) for p in _find_seq(self.toks, sig, ["write", "!", "("])] + [(p, True) for p in _find_seq(self.toks, sig, ["writeln", "!", "("])]
+            if len(hits) != spec.write_macros:
+                raise LostAnchor(f"{self.item_id}: {len(hits)} write!/writeln! found, contracts describe {spec.write_macros}")
+            for p, nl in hits:
+                a, op = sig[p], sig[p + 2]
+                close = match_close(self.toks, op)
+                args, cur, k = [], [], op + 1
+                while k < close:
+                    t = self.toks[k]
+                    if t.kind == "punct" and t.text in "([{":
+                        e = match_close(self.toks, k)
+                        cur.append(self.sf.text[t.start:self.toks[e].end])
+                        k = e + 1
+                        continue
+                    if t.kind == "punct" and t.text == ",":
+                        args.append("".join(cur).strip())
+                        cur = []
+                    elif t.kind in TRIVIA:
+                        cur.append(" ")
+                    else:
+                        cur.append(t.text)
+                    k += 1
+                if "".join(cur).strip():
+                    args.append("".join(cur).strip())
+                if len(args) < 1 or (len(args) >= 2 and not args[1].startswith('"')):
+                    raise LostAnchor(f"{self.item_id}: write! without a literal format string (R17 does not apply)")
+                if len(args) == 1:      # writeln!(w)
+                    args.append('""')
+                new = f"{args[0]}.put{len(args) - 2}({args[1]}, {'true' if nl else 'false'}" + "".join(", " + x for x in args[2:]) + ")"
+                for q in range(a, close + 1):
+                    if q in self.replace or q in self.removed and self.toks[q].kind not in TRIVIA:
+                        raise LostAnchor(f"{self.item_id}: write! overlaps another rewrite")
+                self.replace[a] = (close, new, self.origin_code(self.toks[a]))
+                self.log("R17", a, f"`{'writeln' if nl else 'write'}!` with {len(args) - 2} argument(s) => `{new}`")
         # debug_assert (R2)
         if spec.debug_asserts or True:
             sig = self.live_sig()
@@ -537,6 +583,13 @@ class Splicer:
                 raise TemplateError(f"{self.item_id}: `arm` item needs an `armfn <signature>` directive")
             self.ins_before(0, spec.armfn, ("tmpl", "armfn", 0))
             self.log("R16", 0, f"match arm `{spec.selector.split(' :: ')[-1]}` lifted to `{spec.armfn}`")
+            if spec.arm_tail:
+                # a statement arm (type `()`, inside a loop of a fn returning Result): the lifted fn returns Result so that `?` keeps its
+                # meaning (leave with the error); falling off the end of the block is the success value
+                last = self.live_sig()[-1]
+                if self.toks[last].text != "}":
+                    raise LostAnchor(f"{self.item_id}: arm is not a block")
+                self.ins_before(last, spec.arm_tail, ("tmpl", "arm-tail", 0))
             lines = []
             if spec.requires:
                 lines.append(("    requires", None))
